@@ -188,6 +188,30 @@ def rule_p3(ctx, F):
                             grown.add(fld)
                     if ".html" not in t and ".line_offsets" not in t and "self" in t and "highlights" not in t:
                         grown.add(t.split(".")[-1])
+    # per-document scratch: fields stored to while rendering (methods other than new/reset/setters)
+    def field_stores(f):
+        out = []
+        for pt, e in f.points():
+            for n in own_walk(e):
+                if n.get("k") == "assign":
+                    l = strip(n["l"])
+                    if l.get("k") == "mem" and l.get("rec") == "HtmlRenderer":
+                        out.append((pt, l["f"]))
+        return out
+    scratch = set()
+    for f in F.fn_list:
+        short = f.name.split("::")[-1]
+        if "HtmlRenderer" in f.name and short not in ("new", "reset", "default") and not short.startswith("set_"):
+            scratch.update(fld for pt, fld in field_stores(f))
+    scratch -= grown
+    ctx.floor("per-document scratch fields of HtmlRenderer", len(scratch), 1)
+    for fld in sorted(scratch):
+        pts = [pt for pt, f2 in field_stores(fn) if f2 == fld]
+        if pts:
+            ctx.on_all_paths("P3", "HtmlRenderer::reset:restores-" + fld, fn, pts, "reset() re-initialises `%s`" % fld)
+        else:
+            ctx.bad("P3", "HtmlRenderer::reset:restores-" + fld, "HtmlRenderer::reset does not re-initialise `%s`, which rendering stores to: a render that ended early (an Err event) leaves it set, "
+                    "and the next document rendered with the reused renderer starts from that stale value" % fld, {"function": fn.name, "field": fld})
     ctx.floor("accumulating buffers of HtmlRenderer", len(grown), 2)
     for fld in sorted(grown):
         pts = emptying_points(F, fn, "." + fld)
